@@ -129,7 +129,8 @@ def ex_extend(c):
 
 def ex_append(c):
     x, y = arr(c["x"], c.get("container", "array")), arr(c["y"], c.get("container", "array"))
-    oc, o = guarded(lambda: sau.append_one_sample(x, y, make_periodic=c["periodic"]))
+    flag = {"np": np.bool_(c["periodic"]), "int": int(c["periodic"])}.get(c.get("pflag"), c["periodic"])     # truthy forms of the flag
+    oc, o = guarded(lambda: sau.append_one_sample(x, y, make_periodic=flag))
     e = dict(c)
     e.update(outcome=oc, outx=vec(o[0]) if oc == "ok" else [], outy=vec(o[1]) if oc == "ok" else [])
     return e
@@ -844,7 +845,7 @@ def wcall(w, op):
     """Perform one operation record on a real Weaver (public API only)."""
     k = op["k"]
     if k == "append":
-        return w.append_one_sample(make_periodic=op["periodic"])
+        return w.append_one_sample(make_periodic={"np": np.bool_(op["periodic"]), "int": int(op["periodic"])}.get(op.get("pflag"), op["periodic"]))
     if k in ("shift_x", "shift_y", "scale_x", "scale_y"):
         v = fl(op["v"])
         return getattr(w, k)(int(v) if op.get("as_int") and v == int(v) else v)
@@ -993,7 +994,7 @@ def ex_whist(c):
         before = snap(w)
         cbefore = caller_state()
         prev_ref = guarded(lambda: tuple(np.array(v, dtype=float, copy=True) for v in w.get_reference()))[1]
-        o = {kk: vv for kk, vv in op.items() if kk not in ("n_f", "alpha_f", "exp_f", "smooth_f", "s_f", "snr_f", "seed", "as_int", "qcontainer", "linear", "snap_ends")}
+        o = {kk: vv for kk, vv in op.items() if kk not in ("n_f", "alpha_f", "exp_f", "smooth_f", "s_f", "snr_f", "seed", "as_int", "qcontainer", "linear", "snap_ends", "pflag")}
         if op["k"] == "truncate_index" and prev_ref is not None:
             op = dict(op, stop_resolved=(len(w.get()[0]) if op["stop"] == NONEINT else op["stop"]))
         if op["k"] == "interpolate_grid":
